@@ -40,6 +40,7 @@ def term(v):
 
 
 _RECORDERS = {}
+EXPECT_BI = [0]         # the batch index the run metadata must carry (sessions of several batches set it per batch)
 
 
 def _token(bs, k, v):
@@ -48,7 +49,7 @@ def _token(bs, k, v):
     if k == "random_state":
         return ["RS"] if isinstance(v, np.random.RandomState) else ["RS?", type(v).__name__]
     if k == "meta":
-        ok = isinstance(v, dict) and v.get("batch_index") == 0 and "submission_index" in v and "master_seed" in v
+        ok = isinstance(v, dict) and v.get("batch_index") == EXPECT_BI[0] and "submission_index" in v and "master_seed" in v
         return ["META"] if ok else ["META?", repr(v)[:40]]
     return term(v)
 
